@@ -257,6 +257,77 @@ def rule_mpc_branch(ctx, repo):
               "; ".join(bad), imp.W(st))
 
 
+KINDS = ("power", "ipower", "voltage", "current", "z", "y", "r", "g", "dc_voltage", "dc_current")
+
+
+def _importer_adds(repo):
+    """[(file, function, Model, {key: value-node}, node)] for every device record built by the MATPOWER / PSS/E importers."""
+    out = []
+    for rel in (MPC, "andes/io/psse.py"):
+        for fname, fn in repo.funcs.get(rel, {}).items():
+            last = {}
+            for n in sorted([x for x in ast.walk(fn) if isinstance(x, (ast.Assign, ast.Expr))], key=lambda x: x.lineno):
+                if isinstance(n, ast.Assign) and len(n.targets) == 1 and isinstance(n.targets[0], ast.Name) and isinstance(n.value, ast.Dict):
+                    last[n.targets[0].id] = ({k.value: v for k, v in zip(n.value.keys, n.value.values) if isinstance(k, ast.Constant)}, n)
+                elif isinstance(n, ast.Expr) and isinstance(n.value, ast.Call):
+                    c = n.value
+                    d = dotted(c.func) or ""
+                    if d == "system.add" and c.args and isinstance(c.args[0], ast.Constant):
+                        out.append((rel, fname, c.args[0].value, {k.arg: k.value for k in c.keywords if k.arg}, c))
+                    elif d.endswith(".update") and d[:-7] in last and c.args and isinstance(c.args[0], ast.Dict):
+                        last[d[:-7]][0].update({k.value: v for k, v in zip(c.args[0].keys, c.args[0].values) if isinstance(k, ast.Constant)})
+                    elif d.endswith(".append") and c.args and isinstance(c.args[0], ast.Name) and c.args[0].id in last:
+                        m = Q.match("$o[$m].append($p)", c)
+                        if m and isinstance(m["m"], ast.Constant):
+                            keys, node = last[c.args[0].id]
+                            out.append((rel, fname, m["m"].value, dict(keys), node))
+    return out
+
+
+def rule_import_bases(ctx, repo, models):
+    """per-unit quantities in MATPOWER / PSS/E files are on the FILE's system base (unless a record carries its own base):
+    a record that supplies base-dependent parameters (unit-flagged z/y/power/...) must also state that base as `Sn`,
+    otherwise the model's default Sn (100) is assumed and every file with another system base is mis-scaled."""
+    adds = _importer_adds(repo)
+    if len(adds) < 10:
+        raise AnalysisError("importer device records: %d recognised, >= 14 confirmed by reading" % len(adds))
+    for rel, fname, model, keys, node in adds:
+        if model not in models:
+            continue
+        flagged = sorted(k for k in keys if k in models[model].params and any(models[model].params[k].property.get(f) for f in KINDS))
+        if not flagged or "Sn" not in models[model].params:
+            continue
+        c = "%s::%s/%s@L%d" % (rel.split("/")[-1], fname, model, node.lineno)
+        ctx.check("Sn" in keys, "C13.base", c, "base-dependent %s supplied together with Sn" % flagged,
+                  "%s record supplies %s (per unit on the file's system base) without `Sn`: the model default Sn = %s is used, so a file "
+                  "whose system base differs from it is imported with wrongly scaled values" % (
+                      model, flagged, models[model].params["Sn"].default), "%s:%d" % (rel, node.lineno))
+
+
+# PSS/E v33 record layouts (physical columns that define the network); from the PSS/E data format documentation
+RAW_REQUIRED = {
+    "_parse_bus_v33": {0: "I", 2: "BASKV", 3: "IDE", 7: "VM", 8: "VA"},
+    "_parse_load_v33": {0: "I", 2: "STATUS", 5: "PL", 6: "QL", 7: "IP", 8: "IQ", 9: "YP", 10: "YQ"},
+    "_parse_fshunt_v33": {0: "I", 2: "STATUS", 3: "GL", 4: "BL"},
+    "_parse_gen_v33": {0: "I", 2: "PG", 3: "QG", 4: "QT", 5: "QB", 6: "VS", 8: "MBASE", 14: "STAT", 16: "PT", 17: "PB"},
+    "_parse_line_v33": {0: "I", 1: "J", 3: "R", 4: "X", 5: "B", 9: "GI", 10: "BI", 11: "GJ", 12: "BJ", 13: "ST"},
+}
+
+
+def rule_raw_columns(ctx, repo):
+    rel = "andes/io/psse.py"
+    for fname, req in RAW_REQUIRED.items():
+        fn = repo.func(rel, fname)
+        read = set()
+        for n in ast.walk(fn):
+            if isinstance(n, ast.Subscript) and dotted(n.value) == "data" and isinstance(n.slice, ast.Constant) and isinstance(n.slice.value, int):
+                read.add(n.slice.value)
+        missing = {k: v for k, v in req.items() if k not in read}
+        ctx.check(not missing, "C13.raw-columns", fname, "all %d physical columns of the record are read" % len(req),
+                  "physical columns %s of the PSS/E record are never read: that part of the source data is silently dropped" % (
+                      ", ".join("%s(%d)" % (v, k) for k, v in sorted(missing.items()))), "%s:%d" % (rel, fn.lineno))
+
+
 def rule_roundtrip(ctx, repo):
     # readers feed every record to system.add
     for rel in ("andes/io/xlsx.py", "andes/io/json.py"):
@@ -367,6 +438,8 @@ def run(ctx):
     ctx.rule("C13.mpc-inverse", "every column written by system2mpc is read back by mpc2system into the same parameter with the "
              "inverse scale; bus type codes agree", 30)
     ctx.rule("C13.mpc-branch", "branch records: tap/shift classification evaluated over all (ratio, angle) classes", 1)
+    ctx.rule("C13.base", "importer records with base-dependent parameters state the file's system base as Sn", 5)
+    ctx.rule("C13.raw-columns", "PSS/E v33 record layouts: every physical column is read", 5)
     ctx.rule("C13.scatter", "cardinality-typed dataflow: additive quantities scattered through a device->bus index must accumulate", 2)
     ctx.rule("C13.roundtrip", "xlsx/json: writers emit the refreshed input-base view; readers feed every record to System.add; "
              "System.add allocation order", 7)
@@ -378,6 +451,8 @@ def run(ctx):
     models = elab.load_models()
     rule_mpc(ctx, repo, models)
     rule_mpc_branch(ctx, repo)
+    rule_import_bases(ctx, repo, models)
+    rule_raw_columns(ctx, repo)
     rule_roundtrip(ctx, repo)
     rule_registry(ctx, repo)
     rule_dyr(ctx, repo, models)
